@@ -11,7 +11,8 @@ import (
 
 var (
 	smallNames   = []string{"a", "b", "c", "d"}
-	specialNames = []string{"", "/", "*", "[", "]", "a/b", "/a", "a/", "//", "x[k=v]", "=", " ", "\\", "a b", "...", "日本", "é", "𝛼", "\u0000", "A", "aa", "ab", "b/", "*/*"}
+	specialNames = []string{"", "/", "*", "[", "]", "a/b", "/a", "a/", "//", "x[k=v]", "=", " ", "\\", "a b", "...", "日本", "é", "𝛼", "\u0000", "A", "aa", "ab", "b/", "*/*",
+		"\uFFFD", "a\uFFFDb", "\uFFFD/", "[=]", "\\/", "k=v]", "]["}
 )
 
 // genStr: any valid UTF-8 string, with the empty string, '/', '*', '[' and a
@@ -21,7 +22,7 @@ func genStr() *rapid.Generator[string] {
 		rapid.SampledFrom(smallNames),
 		rapid.SampledFrom(smallNames),
 		rapid.SampledFrom(specialNames),
-		rapid.StringOfN(rapid.RuneFrom([]rune("ab/*[]=\\ é日")), 0, 4, -1),
+		rapid.StringOfN(rapid.RuneFrom([]rune("ab/*[]=\\ é日\uFFFD")), 0, 4, -1),
 		rapid.Map(rapid.StringN(0, 6, -1), func(s string) string { return strings.ToValidUTF8(s, "�") }),
 	)
 }
@@ -102,12 +103,13 @@ func genCompleteScenario(t *rapid.T) *CompleteScenario {
 
 // --------------------------------------------------------------- query -----
 
-var plainSamples = []string{"a", "b", "c", "interfaces", "a/b", "a//b", "a/b/c", "/", "//", "/a", "a/", "/a/", "*", "eth0/1", "Ethernet1/2/3", "k=v", "a:b", "@x", "日本/語", "é", "a.b", "-", "a*", "openconfig:interfaces"}
+var plainSamples = []string{"a", "b", "c", "interfaces", "a/b", "a//b", "a/b/c", "/", "//", "/a", "a/", "/a/", "*", "eth0/1", "Ethernet1/2/3", "k=v", "a:b", "@x", "日本/語", "é", "a.b", "-", "a*", "openconfig:interfaces",
+	"\uFFFD", "a\uFFFDb", "/\uFFFD", "=", "a=b=c", "=/=", "\uFFFD=\uFFFD"}
 
 func genPlainElement() *rapid.Generator[string] {
 	return rapid.OneOf(
 		rapid.SampledFrom(plainSamples),
-		rapid.StringOfN(rapid.RuneFrom([]rune("ab/*=:@-._é日")), 1, 6, -1),
+		rapid.StringOfN(rapid.RuneFrom([]rune("ab/*=:@-._é日\uFFFD")), 1, 6, -1),
 		rapid.StringOfN(rapid.RuneFrom([]rune("ab/")), 1, 5, -1),
 		rapid.Map(rapid.StringN(1, 6, -1), func(s string) string { return strings.ToValidUTF8(s, "�") }).Filter(plainElement),
 	)
@@ -143,7 +145,10 @@ var (
 		0x7fc00000 /* NaN */, 0x7f800001 /* signalling NaN */, 0xffc00001,
 		math.Float32bits(1), math.Float32bits(-1), math.Float32bits(0.1), math.Float32bits(math.MaxFloat32), math.Float32bits(math.SmallestNonzeroFloat32), math.Float32bits(16777216),
 	}
-	invalidUTF8 = [][]byte{{0xff}, {'a', 0xc0}, {0xed, 0xa0, 0x80}, {0xf8, 0x88, 0x80, 0x80, 0x80}, {'o', 'k', 0x80}, {0xc3}}
+	invalidUTF8 = [][]byte{{0xff}, {'a', 0xc0}, {0xed, 0xa0, 0x80}, {0xf8, 0x88, 0x80, 0x80, 0x80}, {'o', 'k', 0x80}, {0xc3},
+		{0xef, 0xbf}, {0xef, 0xbf, 0xbd, 0xbd}, {0xbd, 0xbf, 0xef}}
+	// the replacement character itself is valid UTF-8 (EF BF BD) and must round-trip like any other rune
+	replacementStrs = [][]byte{{0xef, 0xbf, 0xbd}, {'a', 0xef, 0xbf, 0xbd, 'b'}, {0xef, 0xbf, 0xbd, 0xef, 0xbf, 0xbd}, {0xef, 0xbf, 0xbc}, {0xef, 0xbf, 0xbe}, []byte("caf\uFFFD (sanitised)")}
 )
 
 func genInt64() *rapid.Generator[int64] {
@@ -173,6 +178,7 @@ func genMaybeInvalid() *rapid.Generator[[]byte] {
 		rapid.Map(genStr(), func(s string) []byte { return []byte(s) }),
 		rapid.SampledFrom(invalidUTF8),
 		rapid.SliceOfN(rapid.Byte(), 0, 6),
+		rapid.SampledFrom(replacementStrs),
 	)
 }
 
